@@ -199,6 +199,8 @@ class Executor:
         self.entry_old = None
         self.entry_alive = None
         self.contract_stack = []
+        self.loop_alive = []
+        self.last_frame_summary = {}
         self.comp_info = {}
         self.literal_seqs = {}
 
@@ -275,7 +277,7 @@ class Executor:
             at = None
             if z3.is_store(arr) and arr.arg(0).eq(cur):
                 at = arr.arg(1)
-            self.write_log.append((name, at, hint, fresh_obj, preds))
+            self.write_log.append((name, at, hint, fresh_obj, preds, list(st.pc) if at is not None and not fresh_obj else None))
 
     def named_heap(self, st, name):
         """the current array of heap `name` as a constant (for use in quantifier patterns: z3 rewrites
@@ -356,12 +358,15 @@ class Executor:
         if k == "gen":
             alive = self.heap_get(st, "$alive")
             return z3.And(alive[term], cls_of(term) == self.cid("GEN"))
-        if k == "date":
-            return z3.Or(term == Val.boolv(False), smt.is_number(term))
+        if k == "date":      # False ("no date") or a date
+            return z3.Or(term == Val.boolv(False), Val.is_intv(term), Val.is_realv(term), Val.is_pinf(term),
+                         Val.is_decv(term), Val.is_dpinf(term))
         if k == "num":
             return smt.is_number(term)
         if k == "real":
             return z3.Or(Val.is_realv(term), Val.is_intv(term))
+        if k == "time":      # a date or duration: any number except a bool (False is "no date", never a date)
+            return z3.Or(Val.is_intv(term), Val.is_realv(term), Val.is_pinf(term), Val.is_decv(term), Val.is_dpinf(term))
         if k == "fnum":      # a float-world number: finite (bool / int / float) or +inf
             return z3.Or(smt.isfin(term), Val.is_pinf(term))
         if k == "intinf":
